@@ -32,6 +32,8 @@
 (*   VJ  a string-valued option of C with joined value (--type=x, -tx,     *)
 (*       --type=-h, -t-h)                                                  *)
 (*   A   a free word (foo, key=val, -)                                     *)
+(*   HW  the bare word `help' (no command of that name is registered: for  *)
+(*       the gate and for the parser it is just a word, wherever it is)    *)
 (*   U   an option no command knows (--verif-unknown, -Z)                  *)
 (*                                                                         *)
 (* A command signature sig = [cls, min, sub, hasB, hasV]:                  *)
@@ -52,7 +54,7 @@ CONSTANTS MaxCore,   \* every argv over Tokens of length <= MaxCore ...
 \* The statement's list of read-only commands.
 ReadOnly == {"get", "services", "set-health", "is-connected", "system-mode", "model"}
 
-Tokens == {"C", "O", "H", "HH", "HC", "HJ", "DD", "B", "V", "VJ", "A", "U"}
+Tokens == {"C", "O", "H", "HH", "HC", "HJ", "HW", "DD", "B", "V", "VJ", "A", "U"}
 
 DefaultSigs ==
   { [cls |-> c, min |-> m, sub |-> FALSE, hasB |-> TRUE, hasV |-> TRUE] : c \in {"A", "F"}, m \in 0..2 }
@@ -92,7 +94,7 @@ Gate(uid, sig, argv) == uid = "root" \/ GateScan(sig, argv, 1)
 (*   act   the command C has been selected (s.command.Active)               *)
 (*   n     positional words collected for it                                *)
 (* The first error / help request ends the scan (s.err, break).             *)
-NonOption(t) == t \in {"C", "O", "A"}
+NonOption(t) == t \in {"C", "O", "A", "HW"}
 
 Finish(sig, act, n, leftover) ==
   IF ~act \/ sig.sub
